@@ -75,6 +75,12 @@ def frame_from_knx_total(data, service):
         assert len(data) < 6 or (data[0] == 6 and len(data) < data[4] * 256 + data[5])
         return
     except CouldNotParseKNXIP:
+        # ... and conversely a proper prefix of a frame is never reported as malformed (the TCP transport
+        # would throw the octets away instead of waiting for the rest): fewer than 6 octets, or a
+        # well-formed header (length 6, version 0x10, known service, total >= 6) announcing more octets
+        assert len(data) >= 6
+        if service != -1 and data[0] == 6 and data[1] == 0x10 and data[4] * 256 + data[5] >= 6:
+            assert len(data) >= data[4] * 256 + data[5]
         return
     total = data[4] * 256 + data[5]
     assert frame.header.total_length == total
